@@ -10,6 +10,20 @@
 #include <stdexcept>
 #include <vector>
 
+#ifdef WL_TRIP_EARLY
+// A user object that is constructed during static initialisation — defined ABOVE the
+// declaration of the trip line, so before any namespace-scope object that declaration
+// might introduce — and owns a default trigger (a "shutdown guard").  The declared line
+// must exist whenever it is first asked for.
+namespace {
+struct EarlyUser {
+    std::unique_ptr<gmlc::concurrency::TripWireTrigger> trig;
+    EarlyUser(): trig(new gmlc::concurrency::TripWireTrigger()) {}
+};
+EarlyUser g_early;
+}  // namespace
+#endif
+
 DECLARE_TRIPLINE()
 DECLARE_INDEXED_TRIPLINES(4)
 
@@ -48,6 +62,12 @@ std::unique_ptr<TripWireTrigger> make_trigger(int line)
         return std::move(S->pre_trigger[(size_t)line]);
     }
     if (!S->is_static) return std::make_unique<TripWireTrigger>(S->lines[(size_t)line]);
+#ifdef WL_TRIP_EARLY
+    if (line == 0 && g_early.trig) {
+        gsim::probe("trip.trigger_made_during_static_initialisation");
+        return std::move(g_early.trig);
+    }
+#endif
     if (line == 0) return std::make_unique<TripWireTrigger>();
     return std::make_unique<TripWireTrigger>((unsigned)(line - 1));
 }
@@ -308,4 +328,8 @@ void run()
 }
 }  // namespace
 
+#ifdef WL_TRIP_EARLY
+GSIM_WORKLOAD(wl_trip_early, run, OPN)
+#else
 GSIM_WORKLOAD(wl_trip, run, OPN)
+#endif
